@@ -243,6 +243,19 @@ pub fn op_has_nested(o: &Op) -> bool {
         _ => false,
     }
 }
+/// (all deposits of the script sit inside some loan's callback, there is at least one)
+pub fn script_deposits_inside_loans(s: &[Act], in_loan: bool) -> (bool, bool) {
+    let (mut all_inside, mut any) = (true, false);
+    for a in s {
+        match a {
+            Act::Deposit { .. } => { any = true; if !in_loan { all_inside = false; } }
+            Act::Loan { script, .. } => { let (i, n) = script_deposits_inside_loans(script, true); all_inside &= i; any |= n; }
+            Act::Try { script } => { let (i, n) = script_deposits_inside_loans(script, in_loan); all_inside &= i; any |= n; }
+            _ => {}
+        }
+    }
+    (all_inside, any)
+}
 pub fn script_has_try(s: &[Act]) -> bool {
     s.iter().any(|a| match a { Act::Try { .. } => true, Act::Loan { script, .. } => script_has_try(script), _ => false })
 }
